@@ -39,6 +39,7 @@ CONSTANTS
     StampWindow,   \* TRUE: kills may also land between a script's redo-stamp and the recording of its build
     StaleTmpDirBug, \* TRUE: pinned behaviour, a stale <t>.redo.tmp that is a directory makes start_self fail (EISDIR)
     SelfDepPanics, \* TRUE: pinned behaviour, add_dep asserts self.id != src.id (exit 101)
+    NullStampPanics, \* TRUE: pinned behaviour, start_self unwraps the stamp of a generated record that has none (exit 101)
     Links,      \* [link name -> Seq(names)]: sources that are symbolic links, and what the user may point them to
                 \* (initially the first; the pointees are sources that are never removed)
     LogViewer,  \* TRUE: top-level commands run with their log viewer (redo-log), which probes target locks
@@ -369,7 +370,7 @@ Decide(p, t, w1, adv) ==
     ELSE IF sb.v = "cycle" THEN Imm(sb.w, 208, "cycle")
     ELSE IF sb.v = "clean" THEN Imm(sb.w, 0, "clean")
     ELSE IF sb.v = "dirty" \/ P.oob THEN
-        LET ss == StartSelf(sb.w, e, t, sf, Cands[t]) IN
+        LET ss == StartSelf(sb.w, e, t, sf, Cands[t], NullStampPanics) IN
         IF ss.k = "panic" THEN ErrorExit(p, 101, sb.w)
         ELSE IF ss.k \in {"static", "norule"} THEN Imm(ss.w, ss.rv, ss.k)
         ELSE IF StaleTmpDirBug /\ TmpDir(t) THEN
